@@ -26,53 +26,78 @@ def typeLbpReference : Nat := 10 * (typePrecedences.idxOf "Reference")
 def reservedIdent (s : String) : Bool :=
   s == "create" || s == "destroy" || s == "attach" || s == "fun" || s == "view" || s == "as"
 
+/-- a `.` followed by an identifier -/
+def dotIdent : List Tok → Option (String × List Tok)
+  | ⟨.sym, s, _⟩ :: ⟨.ident, n, _⟩ :: rest => if s == "." then some (n, rest) else none
+  | _ => none
+
 /-- `parseNominalTypeRemainder`: `.`-separated identifiers -/
 def parseNominalRest : Nat → List String → List Tok → Option (List String × List Tok)
   | 0, _, _ => none
   | fuel + 1, acc, ts =>
-    match ts with
-    | ⟨.sym, ".", _⟩ :: ⟨.ident, n, _⟩ :: rest => parseNominalRest fuel (n :: acc) rest
-    | _ => some (acc.reverse, ts)
+    match dotIdent ts with
+    | some (n, rest) => parseNominalRest fuel (n :: acc) rest
+    | none => some (acc.reverse, ts)
+
+/-! The bodies of the mutually recursive functions take the recursive calls (at the smaller fuel) as
+    parameters (`pt` = `parseTy fuel`, `tl` = `tyLoop fuel`, `pe` = `parseExpr fuel`, …): the functions
+    proper only tie the knot.  This keeps one equation per function for the proofs. -/
+
+/-- the next token must be the symbol `s` (`p.mustOne`) -/
+def expect (s : String) : List Tok → Option (List Tok)
+  | ⟨.sym, s', _⟩ :: rest => if s' == s then some rest else none
+  | _ => none
+
+/-- the next token is a `>` that is adjacent to the previous token (second half of `>>`) -/
+def adjGt : List Tok → Option (List Tok)
+  | ⟨.sym, s, false⟩ :: rest => if s == ">" then some rest else none
+  | _ => none
+
+/-- null denotation of `parseType` followed by the loop -/
+def parseTyBody (pn : List String → List Tok → Option (List String × List Tok))
+    (pt : Nat → List Tok → Option (Ty × List Tok)) (tl : Nat → Ty → List Tok → Option (Ty × List Tok))
+    (rbp : Nat) (ts : List Tok) : Option (Ty × List Tok) :=
+  match ts with
+  | ⟨.ident, n, _⟩ :: rest =>
+    if reservedIdent n || n == "auth" then none else
+    (pn [n] rest).bind fun (path, rest') => tl rbp (.nominal path) rest'
+  | ⟨.sym, s, _⟩ :: rest =>
+    if s == "&" then
+      (pt typeLbpReference rest).bind fun (t, rest') => tl rbp (.reference t) rest'
+    else if s == "(" then
+      (pt 0 rest).bind fun (t, r) => (expect ")" r).bind fun rest' => tl rbp t rest'
+    else none
+  | _ => none
+
+/-- the loop of `parseType`: postfix `?` / `??` apply only when adjacent (a space token has binding
+    power 0) -/
+def tyLoopBody (tl : Nat → Ty → List Tok → Option (Ty × List Tok))
+    (rbp : Nat) (left : Ty) (ts : List Tok) : Option (Ty × List Tok) :=
+  match ts with
+  | ⟨.sym, s, false⟩ :: rest =>
+    if s == "?" then
+      if rbp ≥ typeLbpOptional then some (left, ts) else tl rbp (.optional left) rest
+    else if s == "??" then
+      if rbp ≥ typeLbpOptional then some (left, ts) else tl rbp (.optional (.optional left)) rest
+    else if s == "<" then none      -- instantiation: outside the port
+    else some (left, ts)
+  | _ => some (left, ts)
 
 mutual
 /-- `parseType(p, rightBindingPower)` -/
 def parseTy : Nat → Nat → List Tok → Option (Ty × List Tok)
   | 0, _, _ => none
-  | fuel + 1, rbp, ts =>
-    match ts with
-    | ⟨.ident, n, _⟩ :: rest =>
-      if reservedIdent n || n == "auth" then none else
-      match parseNominalRest fuel [n] rest with
-      | some (path, rest') => tyLoop fuel rbp (.nominal path) rest'
-      | none => none
-    | ⟨.sym, "&", _⟩ :: rest =>
-      match parseTy fuel typeLbpReference rest with
-      | some (t, rest') => tyLoop fuel rbp (.reference t) rest'
-      | none => none
-    | ⟨.sym, "(", _⟩ :: rest =>
-      match parseTy fuel 0 rest with
-      | some (t, ⟨.sym, ")", _⟩ :: rest') => tyLoop fuel rbp t rest'
-      | _ => none
-    | _ => none
-/-- the loop of `parseType`: postfix `?` / `??` apply only when adjacent (a space token has binding
-    power 0) -/
+  | fuel + 1, rbp, ts => parseTyBody (parseNominalRest fuel) (parseTy fuel) (tyLoop fuel) rbp ts
 def tyLoop : Nat → Nat → Ty → List Tok → Option (Ty × List Tok)
   | 0, _, _, _ => none
-  | fuel + 1, rbp, left, ts =>
-    match ts with
-    | ⟨.sym, "?", false⟩ :: rest =>
-      if rbp ≥ typeLbpOptional then some (left, ts) else tyLoop fuel rbp (.optional left) rest
-    | ⟨.sym, "??", false⟩ :: rest =>
-      if rbp ≥ typeLbpOptional then some (left, ts) else tyLoop fuel rbp (.optional (.optional left)) rest
-    | ⟨.sym, "<", false⟩ :: _ => none      -- instantiation: outside the port
-    | _ => some (left, ts)
+  | fuel + 1, rbp, left, ts => tyLoopBody (tyLoop fuel) rbp left ts
 end
 
 /-- `parseTypeAnnotation` -/
 def parseAnn (fuel : Nat) (ts : List Tok) : Option (Bool × Ty × List Tok) :=
-  match ts with
-  | ⟨.sym, "@", _⟩ :: rest => (parseTy fuel 0 rest).map (fun (t, r) => (true, t, r))
-  | _ => (parseTy fuel 0 ts).map (fun (t, r) => (false, t, r))
+  match expect "@" ts with
+  | some rest => (parseTy fuel 0 rest).map (fun (t, r) => (true, t, r))
+  | none => (parseTy fuel 0 ts).map (fun (t, r) => (false, t, r))
 
 /-- the literal denotes zero: digits (after the base prefix) are all `0` (or `_`) -/
 def isZeroLit (l : String) : Bool :=
@@ -96,20 +121,75 @@ def foldMinus : Expr → Expr
 def exprLbp (ts : List Tok) : Nat :=
   match ts with
   | [] => 0
-  | ⟨.ident, "as", _⟩ :: _ => bpCasting
+  | ⟨.ident, n, _⟩ :: _ => if n == "as" then bpCasting else 0
   | ⟨.sym, s, _⟩ :: rest =>
     if s == "as?" || s == "as!" then bpCasting
     else if s == "?" then bpTernary
     else if s == "!" then bpUnaryPostfix
     else if s == "." || s == "?." || s == "[" || s == "(" then bpAccess
     else if s == ">" then
-      (match rest with
-       | ⟨.sym, ">", false⟩ :: _ => BinOp.shr.lbp
-       | _ => BinOp.gt.lbp)
+      (match adjGt rest with
+       | some _ => BinOp.shr.lbp
+       | none => BinOp.gt.lbp)
     else match binOfSym s with
       | some op => if op = .shr then 0 else op.lbp
       | none => 0
   | _ => 0
+
+/-- `applyExprNullDenotation`; `pe` = `parseExpression` -/
+def nudBody (pe : Nat → List Tok → Option (Expr × List Tok)) (ts : List Tok) : Option (Expr × List Tok) :=
+  match ts with
+  | ⟨.ident, n, _⟩ :: rest =>
+    if n == "true" then some (.bool true, rest)
+    else if n == "false" then some (.bool false, rest)
+    else if n == "nil" then some (.nil, rest)
+    else if reservedIdent n then none
+    else some (.ident n, rest)
+  | ⟨.int, l, _⟩ :: rest => some (.int false l, rest)
+  | ⟨.fix, l, _⟩ :: rest => some (.fix false l, rest)
+  | ⟨.sym, s, _⟩ :: rest =>
+    if s == "(" then
+      match expect ")" rest with
+      | some rest' => some (.void, rest')
+      | none => (pe 0 rest).bind fun (e, r) => (expect ")" r).map fun rest' => (e, rest')
+    else if s == "-" then
+      (pe UnOp.minus.bp rest).map (fun (e, r) => (foldMinus e, r))
+    else if s == "!" then (pe UnOp.not.bp rest).map (fun (e, r) => (.unary .not e, r))
+    else if s == "*" then (pe UnOp.deref.bp rest).map (fun (e, r) => (.unary .deref e, r))
+    else if s == "<-" then (pe UnOp.move.bp rest).map (fun (e, r) => (.unary .move e, r))
+    else if s == "&" then (pe bpUnaryPrefix rest).map (fun (e, r) => (.ref e, r))
+    else none
+  | _ => none
+
+/-- `applyExprLeftDenotation` for the token at the head of `ts`; `pe` = `parseExpression`,
+    `pa` = `parseTypeAnnotation` -/
+def ledBody (pe : Nat → List Tok → Option (Expr × List Tok)) (pa : List Tok → Option (Bool × Ty × List Tok))
+    (left : Expr) (ts : List Tok) : Option (Expr × List Tok) :=
+  match ts with
+  | ⟨.ident, n, _⟩ :: rest =>
+    if n == "as" then (pa rest).map (fun (res, t, r) => (.cast .cast left res t, r)) else none
+  | ⟨.sym, s, _⟩ :: rest =>
+    if s == "as?" then (pa rest).map (fun (res, t, r) => (.cast .failable left res t, r))
+    else if s == "as!" then (pa rest).map (fun (res, t, r) => (.cast .force left res t, r))
+    else if s == "?" then
+      (pe 0 rest).bind fun (t, r) => (expect ":" r).bind fun rest' =>
+        (pe 0 rest').map (fun (e, r) => (.cond left t e, r))
+    else if s == "!" then some (.force left, rest)
+    else if s == "." || s == "?." then
+      match rest with
+      | ⟨.ident, n, _⟩ :: rest' => some (.member (s == "?.") left n, rest')
+      | _ => none
+    else if s == "[" then
+      (pe 0 rest).bind fun (i, r) => (expect "]" r).map fun rest' => (.index left i, rest')
+    else if s == "(" then none
+    else if s == ">" then
+      match adjGt rest with
+      | some rest' => (pe BinOp.shr.rbp rest').map (fun (e, r) => (.binary .shr left e, r))
+      | none => (pe BinOp.gt.rbp rest).map (fun (e, r) => (.binary .gt left e, r))
+    else match binOfSym s with
+      | some op => (pe op.rbp rest).map (fun (e, r) => (.binary op left e, r))
+      | none => none
+  | _ => none
 
 mutual
 /-- `parseExpression(p, rightBindingPower)` -/
@@ -122,32 +202,7 @@ def parseExpr : Nat → Nat → List Tok → Option (Expr × List Tok)
 /-- `applyExprNullDenotation` -/
 def nud : Nat → List Tok → Option (Expr × List Tok)
   | 0, _ => none
-  | fuel + 1, ts =>
-    match ts with
-    | ⟨.ident, n, _⟩ :: rest =>
-      if n == "true" then some (.bool true, rest)
-      else if n == "false" then some (.bool false, rest)
-      else if n == "nil" then some (.nil, rest)
-      else if reservedIdent n then none
-      else some (.ident n, rest)
-    | ⟨.int, l, _⟩ :: rest => some (.int false l, rest)
-    | ⟨.fix, l, _⟩ :: rest => some (.fix false l, rest)
-    | ⟨.sym, s, _⟩ :: rest =>
-      if s == "(" then
-        match rest with
-        | ⟨.sym, ")", _⟩ :: rest' => some (.void, rest')
-        | _ =>
-          match parseExpr fuel 0 rest with
-          | some (e, ⟨.sym, ")", _⟩ :: rest') => some (e, rest')
-          | _ => none
-      else if s == "-" then
-        (parseExpr fuel UnOp.minus.bp rest).map (fun (e, r) => (foldMinus e, r))
-      else if s == "!" then (parseExpr fuel UnOp.not.bp rest).map (fun (e, r) => (.unary .not e, r))
-      else if s == "*" then (parseExpr fuel UnOp.deref.bp rest).map (fun (e, r) => (.unary .deref e, r))
-      else if s == "<-" then (parseExpr fuel UnOp.move.bp rest).map (fun (e, r) => (.unary .move e, r))
-      else if s == "&" then (parseExpr fuel bpUnaryPrefix rest).map (fun (e, r) => (.ref e, r))
-      else none
-    | _ => none
+  | fuel + 1, ts => nudBody (parseExpr fuel) ts
 /-- the loop of `parseExpression`: `applyExprMetaLeftDenotation` until done -/
 def loop : Nat → Nat → Expr → List Tok → Option (Expr × List Tok)
   | 0, _, _, _ => none
@@ -156,49 +211,22 @@ def loop : Nat → Nat → Expr → List Tok → Option (Expr × List Tok)
     match led fuel left ts with
     | some (left', rest) => loop fuel rbp left' rest
     | none => none
-/-- `applyExprLeftDenotation` for the token at the head of `ts` -/
+/-- `applyExprLeftDenotation` -/
 def led : Nat → Expr → List Tok → Option (Expr × List Tok)
   | 0, _, _ => none
-  | fuel + 1, left, ts =>
-    match ts with
-    | ⟨.ident, "as", _⟩ :: rest =>
-      (parseAnn fuel rest).map (fun (res, t, r) => (.cast .cast left res t, r))
-    | ⟨.sym, s, _⟩ :: rest =>
-      if s == "as?" then (parseAnn fuel rest).map (fun (res, t, r) => (.cast .failable left res t, r))
-      else if s == "as!" then (parseAnn fuel rest).map (fun (res, t, r) => (.cast .force left res t, r))
-      else if s == "?" then
-        match parseExpr fuel 0 rest with
-        | some (t, ⟨.sym, ":", _⟩ :: rest') => (parseExpr fuel 0 rest').map (fun (e, r) => (.cond left t e, r))
-        | _ => none
-      else if s == "!" then some (.force left, rest)
-      else if s == "." || s == "?." then
-        match rest with
-        | ⟨.ident, n, _⟩ :: rest' => some (.member (s == "?.") left n, rest')
-        | _ => none
-      else if s == "[" then
-        match parseExpr fuel 0 rest with
-        | some (i, ⟨.sym, "]", _⟩ :: rest') => some (.index left i, rest')
-        | _ => none
-      else if s == "(" then none
-      else if s == ">" then
-        match rest with
-        | ⟨.sym, ">", false⟩ :: rest' =>
-          (parseExpr fuel BinOp.shr.rbp rest').map (fun (e, r) => (.binary .shr left e, r))
-        | _ => (parseExpr fuel BinOp.gt.rbp rest).map (fun (e, r) => (.binary .gt left e, r))
-      else match binOfSym s with
-        | some op => (parseExpr fuel op.rbp rest).map (fun (e, r) => (.binary op left e, r))
-        | none => none
-    | _ => none
+  | fuel + 1, left, ts => ledBody (parseExpr fuel) (parseAnn fuel) left ts
 end
 
-/-- parse a complete token list as one expression -/
+/-- parse a complete token list as one expression.  The fuel is an artefact of the port (the Go parser
+    has none); `Verif.Proofs.PrattFuel` shows that more fuel never changes a result, and the round trip
+    theorem that `3 * length + 3` suffices for every printed expression. -/
 def parseAll (ts : List Tok) : Option Expr :=
-  match parseExpr (2 * ts.length + 2) 0 ts with
+  match parseExpr (3 * ts.length + 3) 0 ts with
   | some (e, []) => some e
   | _ => none
 
 def parseTyAll (ts : List Tok) : Option Ty :=
-  match parseTy (2 * ts.length + 2) 0 ts with
+  match parseTy (3 * ts.length + 3) 0 ts with
   | some (t, []) => some t
   | _ => none
 
